@@ -564,6 +564,13 @@ class Inliner:
         elif isinstance(st, ast.Return) and st.value is not None:
             self.counter += 1
             tgt_id, val, ret = f"_piece__c{self.counter}", st.value, True
+        elif isinstance(st, ast.Expr) and isinstance(st.value, ast.Call) and isinstance(st.value.func, ast.Attribute) and st.value.func.attr == "extend" \
+                and len(st.value.args) == 1 and not st.value.keywords and _is_simple(st.value.func.value) \
+                and isinstance(st.value.args[0], (ast.GeneratorExp, ast.ListComp)) and len(st.value.args[0].generators) == 1 \
+                and not st.value.args[0].generators[0].is_async and isinstance(st.value.args[0].generators[0].iter, ast.Call) \
+                and self._callee(fi, st.value.args[0].generators[0].iter, generator=True) is not None:
+            # obj.extend(e for x in gen(...) if c)  ->  for x in gen(...): if c: obj.append(e)
+            return self._extend_over_generator(fi, st)
         else:
             return None
         # list(gen(...)) is [x for x in gen(...)]
@@ -622,6 +629,35 @@ class Inliner:
             ast.copy_location(s_, st)
             ast.fix_missing_locations(s_)
         return out
+
+    def _extend_over_generator(self, fi, st: ast.Expr) -> Optional[list]:
+        val = st.value.args[0]
+        g = val.generators[0]
+        obj = st.value.func.value
+        bound = {x.id for x in ast.walk(g.target) if isinstance(x, ast.Name)}
+        if any(isinstance(x, ast.Name) and x.id in bound for x in ast.walk(obj)):
+            return None
+        inside = {id(x) for x in ast.walk(val)}
+        for nested in ast.walk(fi.node):
+            if nested is not fi.node and isinstance(nested, (ast.FunctionDef, ast.AsyncFunctionDef, ast.Lambda)):
+                inside |= {id(x) for x in ast.walk(nested)}
+        if any(isinstance(x, ast.Name) and x.id in bound and id(x) not in inside for x in ast.walk(fi.node)):
+            if any(isinstance(x, (ast.ListComp, ast.SetComp, ast.DictComp, ast.GeneratorExp, ast.Lambda)) for x in ast.walk(val) if x is not val):
+                return None
+            self.counter += 1
+            for x in ast.walk(val):
+                if isinstance(x, ast.Name) and x.id in bound:
+                    x.id = f"{x.id}__c{self.counter}"
+        app: ast.stmt = ast.Expr(value=ast.Call(func=ast.Attribute(value=copy.deepcopy(obj), attr="append", ctx=ast.Load()), args=[val.elt], keywords=[]))
+        for c in reversed(g.ifs):
+            app = ast.If(test=c, body=[app], orelse=[])
+        loop = ast.For(target=g.target, iter=g.iter, body=[app], orelse=[], lineno=st.lineno)
+        for x in ast.walk(loop.target):
+            if isinstance(x, ast.Name):
+                x.ctx = ast.Store()
+        ast.copy_location(loop, st)
+        ast.fix_missing_locations(loop)
+        return [loop]
 
     def gen_inline(self, fi, st: ast.stmt) -> Optional[list]:
         """``for x in gen(args): BODY`` with gen a new generator helper whose yields are plain ``yield e`` statements: the
@@ -721,7 +757,17 @@ class Inliner:
                 if isinstance(node.value, ast.Yield):
                     if same_local is not None:
                         return [copy.deepcopy(b) for b in loop_body]
-                    bind = ast.Assign(targets=[copy.deepcopy(loop_target)], value=node.value.value, lineno=node.lineno)
+                    val_ = node.value.value
+                    if isinstance(loop_target, ast.Tuple) and isinstance(val_, ast.Tuple) and len(val_.elts) == len(loop_target.elts) \
+                            and all(isinstance(t, ast.Name) for t in loop_target.elts) \
+                            and not any(isinstance(e, ast.Starred) for e in val_.elts):
+                        names_ = [t.id for t in loop_target.elts]
+                        # 'a, b = x, y' is 'a = x ; b = y' when no target is read by a later item
+                        if len(set(names_)) == len(names_) and not any(
+                                isinstance(x, ast.Name) and x.id in names_[:i] for i, e in enumerate(val_.elts) for x in ast.walk(e)):
+                            binds = [ast.Assign(targets=[copy.deepcopy(t)], value=e, lineno=node.lineno) for t, e in zip(loop_target.elts, val_.elts)]
+                            return binds + [copy.deepcopy(b) for b in loop_body]
+                    bind = ast.Assign(targets=[copy.deepcopy(loop_target)], value=val_, lineno=node.lineno)
                     return [bind] + [copy.deepcopy(b) for b in loop_body]
                 return node
 
